@@ -11,7 +11,7 @@ import (
 
 func c05World(c *runner.Ctx) (*gen.World, string, error) {
 	r := c.R
-	if c.Idx == 0 || (c.Tier == "thorough" && c.Idx < 8) {
+	if c.Idx%150 == 0 {
 		w, err := gen.GenWorld(r, c.TmpDir, fmt.Sprintf("w%d", c.Idx), gen.WorldOpts{Jumbo: true})
 		return w, "jumbo", err
 	}
@@ -131,7 +131,7 @@ func init() {
 		Rule: "cases = worlds with fixed chunk sizes 1,2,3,5,7 (many chunk crossings on short lists) or drawn modes, plus jumbo worlds (adaptive chunking, lists >1024 docs); per segment 12-24 sequences: a term (general, 1-hit, absent, unknown field), an exclusion bitmap (nil, random, whole chunks, everything, most/few of the list) or ReplaceActual(subset) on 20% of general lists, one of the 8 flag combinations, and len(live)+3 steps mixing Next and Advance(target) with non-decreasing targets > last returned (same, +small, +chunk multiples, near a later posting, beyond the end); " +
 			"oracle = model list scan: returned document (or nil, which must stay nil), and freq/norm when any flag is set, locations when requested; Count()==non-excluded postings; one evaluation per sequence; non-trivial = sequence with >=1 Advance that skips >=1 posting across a chunk boundary or over an excluded posting; distinct by (list, exclusion, flags, call trace)",
 		Assumptions: append([]string{"Advance targets are non-decreasing and greater than the last returned number (bluge_segment_api contract)", "ReplaceActual only right after iterator creation, with a subset of the non-excluded postings, never on a 1-hit list", "freq/norm are compared only if at least one of the three flags is set; locations only if requested"}, InputContract...),
-		Phases:      []runner.Phase{{Name: "navigate", Cases: cases(300, 8000), Run: c05Run}},
+		Phases:      []runner.Phase{{Name: "navigate", Cases: cases(3000, 80000), Run: c05Run}},
 		Floors: func(string) map[string]int64 {
 			return map[string]int64{"skips_across_chunks": 2000, "skips_over_excluded": 1000, "lists_1hit": 200, "lists_1hit_with_exclusion": 50, "lists_replace_actual": 200, "sequences_reaching_end": 5000, "max_chunks_in_list": 3}
 		},
